@@ -170,6 +170,63 @@ def shard_codec(arg) -> E.Tally:
     return t
 
 
+def gen_schedule(a: int) -> dict:
+    """The a-th member of a deterministic family of valid schedules with irregular day lengths, times and values (so that the
+    compressed length - hence fragment count and last-fragment length - varies widely)."""
+    x = (a * 2654435761) & 0xFFFFFFFF
+
+    def rnd() -> int:
+        nonlocal x
+        x = (x * 1103515245 + 12345) & 0x7FFFFFFF
+        return x
+
+    zone = ("02", "07", "HW")[a % 3]
+    maxn = 1 + a % 6
+    days = []
+    for d in range(7):
+        times = sorted({(rnd() % 288) * 5 for _ in range(1 + rnd() % maxn)})
+        sps = []
+        for m in times:
+            if zone == "HW":
+                sps.append({"time_of_day": tod(m), "enabled": bool(rnd() % 2)})
+            else:
+                sps.append({"time_of_day": tod(m), "heat_setpoint": (500 + rnd() % 3001) / 100 if a % 2 else (10 + rnd() % 40) / 2})
+        days.append({"day_of_week": d, "switchpoints": sps})
+    return {"zone_idx": zone, "schedule": days}
+
+
+def shard_tail(arg) -> E.Tally:
+    """Targeted compressed-length sweep: schedules are generated (deterministically) until the LAST fragment has taken every
+    length 1..41 bytes at least `per` times for every fragment count 2..5 - the boundary cases of the fragmenter."""
+    i, n, per, budget = arg
+    logcap.silence_all()
+    sch = S()
+    t = E.Tally()
+    have: dict[tuple, int] = {}
+    need = {(f, ln) for f in (2, 3, 4, 5) for ln in range(1, 42)}
+    a = 0
+    while a < budget and any(have.get(k, 0) < per for k in need):
+        a += 1
+        full = gen_schedule(a)
+        try:
+            frags = sch.full_sched_to_fragz(wire_zone(full))
+        except Exception:  # noqa: BLE001
+            frags = None
+        k = (len(frags), len(frags[-1]) // 2) if frags else None
+        if k is not None and have.get(k, 0) >= per:
+            continue  # this boundary class is already covered: skip the (more expensive) full check
+        if k is not None:
+            have[k] = have.get(k, 0) + 1
+        if a % n != i:
+            continue
+        check_codec(t, full, f"tail sweep {a} ({k})")
+        t.nontrivial += 1
+    t.by["tail_classes_covered"] = sum(1 for k in need if have.get(k, 0) >= per) if i == 0 else 0
+    t.by["tail_classes_wanted"] = len(need) if i == 0 else 0
+    t.by["tail_candidates_generated"] = a if i == 0 else 0
+    return t
+
+
 # ---------------------------------------------------------------------------------------------
 class _Tcs:
     zone_lock_idx = None
@@ -195,6 +252,15 @@ def rp_packets(zone_idx: str, frags: list[str]):
         frame = f"RP --- {CTL} {GWY} --:------ 0404 {len(pl) // 2:03d} {pl}"
         out.append(Message(Packet(dt(2024, 1, 1, 0, 0, num), "045 " + frame)))
     return out
+
+
+def rp_packets_checked(t: E.Tally, zone_idx: str, full: dict, frags: list[str]):
+    """rp_packets(), but a fragment that no reply frame can carry is the library's fault (a violation), not the harness's."""
+    try:
+        return rp_packets(zone_idx, frags)
+    except Exception as e:  # noqa: BLE001
+        t.bad("C17:fragment-too-long", f"fragments of {[len(f) // 2 for f in frags]} bytes: a reply carrying one of them is not a valid frame ({type(e).__name__}: {str(e)[:80]})", {"schedule": full, "label": "reassembly set-up"})
+        return None
 
 
 def schedules_by_frag_count(maxf: int) -> dict[int, dict]:
@@ -225,7 +291,9 @@ def shard_reassembly(arg) -> E.Tally:
     j = 0
     for f, full in sorted(scheds.items()):
         frags = sch.full_sched_to_fragz(full)
-        msgs = rp_packets("01", frags)
+        msgs = rp_packets_checked(t, "01", full, frags)
+        if msgs is None:
+            continue
         want = full["schedule"]
         orders = []
         for perm in itertools.permutations(range(f)):
@@ -260,6 +328,69 @@ def shard_reassembly(arg) -> E.Tally:
     return t
 
 
+def shard_supersede(arg) -> E.Tally:
+    """Not from the initial state: the zone already holds schedule A (complete); then the reply packets of a different
+    schedule B - same or another fragment count - arrive in every order, with every single repeat. Until B is complete the
+    view may still be A (or nothing); once every fragment of B has been delivered it must be B or nothing - never A, never
+    anything else."""
+    i, n, maxf = arg
+    logcap.install()
+    sch = S()
+    t = E.Tally()
+    scheds = schedules_by_frag_count(maxf)
+    alt: dict[int, dict] = {}
+    for f, full in scheds.items():  # a second schedule with the same fragment count
+        for salt in range(1, 400):
+            cand = {"zone_idx": "01", "schedule": [{"day_of_week": d["day_of_week"], "switchpoints": [dict(sp, heat_setpoint=round(5 + (sp["heat_setpoint"] * 7 + salt * 0.5 + d["day_of_week"]) % 30, 1)) for sp in d["switchpoints"]]} for d in full["schedule"]]}
+            if cand != full and len(sch.full_sched_to_fragz(cand)) == f:
+                alt[f] = cand
+                break
+    j = 0
+    for fa, A in sorted(scheds.items()):
+        for fb, B in sorted(list(scheds.items()) + [(f, b) for f, b in alt.items()], key=lambda x: x[0]):
+            if B == A:
+                continue
+            msgs_a = rp_packets_checked(t, "01", A, sch.full_sched_to_fragz(A))
+            msgs_b = rp_packets_checked(t, "01", B, sch.full_sched_to_fragz(B))
+            if msgs_a is None or msgs_b is None:
+                continue
+            orders = []
+            for perm in itertools.permutations(range(fb)):
+                orders.append(list(perm))
+                for pos in range(fb + 1):
+                    for dup in range(fb):
+                        orders.append(list(perm[:pos]) + [dup] + list(perm[pos:]))
+            for order in orders:
+                j += 1
+                if j % n != i:
+                    continue
+                t.n += 1
+                t.nontrivial += 1
+                s = sch.Schedule(_Zone("01"))
+                for m in msgs_a:
+                    s._handle_msg(m)
+                rep = {"supersede": {"fa": fa, "fb": fb, "same": B is alt.get(fb), "order": order, "maxf": maxf}}
+                if s.schedule != A["schedule"]:
+                    t.bad("C17:reassembly-gives-other-schedule:first", f"{fa} fragments in order did not give the schedule", rep)
+                    continue
+                delivered: set = set()
+                for step, k in enumerate(order):
+                    try:
+                        s._handle_msg(msgs_b[k])
+                        got = s.schedule
+                    except Exception as e:  # noqa: BLE001
+                        t.bad(f"C17:reassembly-raises:{type(e).__name__}:superseding", f"holding a {fa}-fragment schedule, then fragments {[x + 1 for x in order[: step + 1]]} of a {fb}-fragment one: {type(e).__name__}: {e}", rep)
+                        break
+                    delivered.add(k)
+                    complete = len(delivered) == fb
+                    if got is not None and got != B["schedule"] and (complete or got != A["schedule"]):
+                        what = "still the superseded schedule" if got == A["schedule"] else "a schedule that is neither"
+                        t.bad(f"C17:reassembly-gives-other-schedule:{'superseded-kept' if got == A['schedule'] else 'neither'}", f"holding a {fa}-fragment schedule, then fragments {[x + 1 for x in order[: step + 1]]} of a different {fb}-fragment one ({'all delivered' if complete else 'incomplete'}): {what}", rep)
+                        break
+    t.by["supersede_orders"] = t.n
+    return t
+
+
 def _dispatch(job) -> E.Tally:
     return globals()[job[0]](job[1])
 
@@ -267,6 +398,8 @@ def _dispatch(job) -> E.Tally:
 def run(ctx) -> None:
     maxf = 5 if ctx.quick else 6
     jobs = [("shard_codec", (i, 16, ctx.quick)) for i in range(16)] + [("shard_reassembly", (i, 16, maxf)) for i in range(16)]
+    jobs += [("shard_tail", (i, 8, 2 if ctx.quick else 6, 25000 if ctx.quick else 120000)) for i in range(8)]
+    jobs += [("shard_supersede", (i, 8, 3 if ctx.quick else 4)) for i in range(8)]
     total = E.pmap(_dispatch, jobs, ctx.seed)
     E.report(
         ctx,
@@ -274,7 +407,9 @@ def run(ctx) -> None:
         rule="complete sweeps inside a 7-day skeleton: all 3001 setpoints 5.00..35.00, all 288 times of day, zones 00-0B and HW x 1..12 switchpoints/day, "
         "small-scope product (day x <=2 switchpoints x 5 setpoints x 3 times), all 256 DHW on/off patterns, a compressed-length sweep; each: validator "
         "accepts => fragz->sched identity, fragment <= 41 bytes, W command decodes back. Reassembly: for schedules of 1..F fragments every permutation "
-        f"and every single repeat at every place (F={maxf}) fed to the real Schedule._handle_msg: the schedule or None after every step.",
+        f"and every single repeat at every place (F={maxf}) fed to the real Schedule._handle_msg: the schedule or None after every step; the same from a "
+        "non-initial state (a complete schedule A already held, then every order/repeat of the fragments of a different schedule B with the same or another "
+        "fragment count: B or nothing once B is complete); a targeted tail sweep until the last fragment has had every length 1..41 for 2..5 fragments.",
         exhaustive=True,
     )
     ctx.assumptions += ["Schedule is driven at its _handle_msg seam with a stub zone (no transfer lock held)"]
@@ -283,7 +418,11 @@ def run(ctx) -> None:
 def replay(rep: dict):
     logcap.install()
     t = E.Tally()
-    if "reassembly" in rep:
+    if "supersede" in rep:
+        r = rep["supersede"]
+        for i in range(8):
+            t.merge(shard_supersede((i, 8, r["maxf"])))
+    elif "reassembly" in rep:
         r = rep["reassembly"]
         for i in range(16):
             t.merge(shard_reassembly((i, 16, r["maxf"])))
